@@ -142,3 +142,76 @@ func VerifRun_C18b() {
 		verifViolation("", "after a create/delete event the type-6 diagnostic does not agree with the existence of the module file")
 	}
 }
+
+// c: native .so modules are tolerated under both separators, at the root and in a sub-directory, and a
+// dofile argument (which carries its suffix) follows the same mapping; the type-6 diagnostic appears
+// exactly when neither exists. Files live in the virtual file system (their names are concrete, the
+// module string is symbolic).
+func VerifRun_C18c() {
+	root := verifVFSRoot()
+	pathpre.InitialRootURIAndPath("file://"+root, root)
+	dm := common.GConfig.GetDirManager()
+	dm.SetVSRootDir(root)
+	dm.InitMainDir()
+	d1 := string([]byte{byte(verifConcretize(int(verifByteIn("d1", "ab"))))})
+	n1 := string([]byte{byte(verifConcretize(int(verifByteIn("n1", "xy"))))})
+	p1 := string(verifBytesIn("p1", 1, "ab"))
+	p2 := string(verifBytesIn("p2", 1, "xy"))
+	kind := verifConcretize(verifRange("kind", 0, 2)) // 0 require -> .so, 1 dofile -> .lua, 2 require -> .lua
+	flat := verifBool("flat")                           // module directly under the root
+	present := verifBool("present")
+	sep := "."
+	if verifBool("slash") {
+		sep = "/"
+	}
+	ext := ".so"
+	if kind != 0 {
+		ext = ".lua"
+	}
+	f1 := root + "/" + d1 + "/" + n1 + ext
+	mod := p1 + sep + p2
+	match := d1 == p1 && n1 == p2
+	if flat {
+		f1 = root + "/" + n1 + ext
+		mod = p2
+		match = n1 == p2
+	}
+	call := "require(\"" + mod + "\")"
+	if kind == 1 {
+		mod = p1 + "/" + p2 + ".lua"
+		if flat {
+			mod = p2 + ".lua"
+		}
+		call = "dofile(\"" + mod + "\")"
+	}
+	mainF := root + "/m.lua"
+	main := []byte("local r = " + call + "\nq = r\n")
+	verifVFSPut(mainF, main)
+	files := []string{mainF}
+	if present {
+		verifVFSPut(f1, []byte("return 1\n"))
+		if kind != 0 {
+			files = append(files, f1)
+		}
+	}
+	p := check.CreateAllProject(files, nil, nil)
+	p.HandleCheck()
+	verifReach("analysed")
+	n6 := 0
+	for _, e := range p.GetAllFileErrorInfo()[mainF] {
+		if e.ErrType == common.CheckErrorNoFile {
+			n6++
+		}
+	}
+	found := present && match
+	if found && n6 > 0 {
+		if kind == 0 {
+			verifViolation("", "a require of an existing native .so module is reported as file-not-found (type 6)")
+		} else {
+			verifViolation("", "a module that exists under the documented mapping is reported as file-not-found (type 6)")
+		}
+	}
+	if !found && n6 == 0 {
+		verifViolation("", "a module for which no file exists under the documented mapping gets no file-not-found diagnostic (type 6)")
+	}
+}
